@@ -309,6 +309,8 @@ BOUNDED = [
      'SIMD kernels are outside both verifiers: FftPlannerSse<f32|f64> on this CPU, every length below the limit: plans without panic, len/direction/scratch<=12n+64; through the three explicit-scratch entry points with canary-guarded buffers: 1..5 chunks and ill-shaped variants, canaries and immutable input intact, ill-shaped panics, every chunk equals the portable (scalar planner) transform of that chunk up to rounding (2e-4 f32 / 1e-11 f64 relative L2); with exactly the advertised scratch the output is bit-identical whether scratch and output start as zero, NaN or +inf (C08)', 'avx,sse'),
     ('simd_avx', ['C01', 'C03', 'C04', 'C07', 'C08', 'C09', 'C13', 'C15'], 'simd_avx:336', 'simd_avx:1100',
      'same for FftPlannerAvx<f32|f64> (this CPU: avx2+fma)', 'avx,sse'),
+    ('simd_mem', ['C03', 'C15'], 'simd_mem:256', 'simd_mem:1100',
+     'memory safety of the SIMD kernels at run time, READS included (the canary pads of simd_sse / simd_avx only see writes): the replay binary runs under valgrind memcheck; FftPlannerAvx and FftPlannerSse, f32 and f64, every length below the limit, 1 and 2 chunks, the three explicit-scratch entry points, every buffer a heap block of exactly the required size - an access outside a caller buffer is an invalid read / write', 'avx,sse', 'valgrind'),
     ('simd_pairs', ['C04', 'C05', 'C06', 'C10', 'C12'], 'simd_pairs:160:10000:1200', 'simd_pairs:400:40000:2400',
      'history quantifier of C10 on the SIMD planners at shape level (stand-in wherever a planner proof is lost to an unsupported rewrite): every ordered pair of requests below the first limit (AVX and SSE planners, f32 and f64, same and opposite direction) and, for the AVX planner, every pair a | b of 11-smooth lengths below the second limit: no panic, second answer has the requested length and direction and advertises at most 12 n + 64 scratch; for the workspace clause of C05 under history additionally every prime b below the third limit requested after each a = 2^i 3^j in [2b-1, 12b] (the lengths a Bluestein search can consider)', 'avx,sse'),
     ('scalar_pairs', ['C04', 'C06', 'C10', 'C12'], 'scalar_pairs:450', 'scalar_pairs:1500',
@@ -347,8 +349,14 @@ def run_bounded(prop, tier):
         if exe is None:
             return {'name': 'bn:' + b[0], 'status': 'inconclusive', 'reason': 'replay build failed: ' + err[-400:], 'stands_in_for': b[4]}
         t1 = time.time()
+        cmd = [exe, arg]
+        if len(b) > 6 and b[6] == 'valgrind':
+            import shutil
+            if not shutil.which('valgrind'):
+                return {'name': 'bn:' + b[0], 'status': 'inconclusive', 'reason': 'valgrind is not installed', 'arg': arg, 'stands_in_for': b[4]}
+            cmd = ['valgrind', '-q', '--error-exitcode=9', '--errors-for-leak-kinds=none', exe, arg]
         try:
-            p = subprocess.run([exe, arg], capture_output=True, text=True, timeout=3000)
+            p = subprocess.run(cmd, capture_output=True, text=True, timeout=3000)
         except subprocess.TimeoutExpired:
             return {'name': 'bn:' + b[0], 'status': 'inconclusive', 'reason': 'timeout', 'arg': arg, 'stands_in_for': b[4]}
         out = p.stdout.strip()
@@ -357,7 +365,14 @@ def run_bounded(prop, tier):
             # the real code crashed (e.g. `unsafe precondition(s) violated` abort from a debug-assertion build)
             errl = [l for l in p.stderr.split('\n') if l.strip()]
             case = [l for l in errl if l.startswith('CASE ')]
-            out = 'WITNESS %s: process terminated abnormally (exit status %s) %s: %s' % (arg, p.returncode, ('in ' + case[-1][5:]) if case else '', ' | '.join([l for l in errl if not l.startswith('CASE ')][-3:]))
+            vg = [re.sub(r'^==\d+==\s*', '', l) for l in errl if re.match(r'==\d+==', l)]
+            if vg:
+                # first memcheck report: the CASE line printed just before it names the call
+                first = next(i for i, l in enumerate(errl) if re.match(r'==\d+==', l))
+                case = [l for l in errl[:first] if l.startswith('CASE ')]
+                out = 'WITNESS %s: valgrind memcheck: %s %s: %s' % (arg, vg[0], ('in ' + case[-1][5:]) if case else '', ' | '.join(vg[1:4]))
+            else:
+                out = 'WITNESS %s: process terminated abnormally (exit status %s) %s: %s' % (arg, p.returncode, ('in ' + case[-1][5:]) if case else '', ' | '.join([l for l in errl if not l.startswith('CASE ')][-3:]))
         if out.startswith('WITNESS'):
             r['status'] = 'fail'
             r['failure'] = {'obligation': 'bn:%s' % b[0], 'function': b[0], 'message': 'bounded check found a failing input', 'where': [],
@@ -478,7 +493,9 @@ def check(prop, tier, seed):
             else:
                 fh.write('\n--- replay ---\nno-failing-input-found: %s\n' % ((witness or {}).get('text') or 'the verifier gives no counterexample for this obligation and no concrete search is registered for it'))
         tail = '' if (witness and witness.get('found')) else ' no-failing-input-found'
-        vio_lines.append('VIOLATION property=%s replay=%s%s' % (prop, rp, tail))
+        ln_ = 'VIOLATION property=%s replay=%s%s' % (prop, rp, tail)
+        if ln_ not in vio_lines:    # the same obligation can fail in several instantiations of one template (f32 / f64 module)
+            vio_lines.append(ln_)
 
     # evidence
     # obligations of this property: every discharged function-level VC set, plus the functions with a failure attributed
